@@ -19,7 +19,17 @@ def ucanon(r, n):
     return z3.If(r < 0, r + _M(n), r)
 
 
+def sterm(v, n):
+    """signed-view Int term (or python int) of an Int-mode value"""
+    if not isinstance(v, SV):
+        return to_signed(v, n)
+    if v.s is not None:
+        return v.s
+    return sview(v.e, n)
+
+
 def install(E):
+    from .models import GuardedPtr
     # ------------------------------------------------------------------ integer binops
     def op_ibin(self, st, fr, ins, work):
         a = self.val(st, fr, ins.a[0])
@@ -38,7 +48,6 @@ def install(E):
     def ibin(self, st, op, a, b, n, flags=()):
         if a is UNDEF or b is UNDEF:
             return UNDEF
-        from .models import GuardedPtr
         if isinstance(a, GuardedPtr) or isinstance(b, GuardedPtr):
             raise Inconclusive("integer arithmetic on a guarded pointer")
         if not is_sym(a) and not is_sym(b):
@@ -175,10 +184,16 @@ def install(E):
                 return 0
         if cb and b == 1 and op in ("udiv", "sdiv"):
             return a
-        ea, eb = self.iterm(a, n), self.iterm(b, n)
         M = _M(n)
         nuw = "nuw" in flags
         nsw = "nsw" in flags
+        if op in ("add", "sub", "mul") and nsw and not nuw:
+            sa, sb = sterm(a, n), sterm(b, n)
+            r = sa + sb if op == "add" else sa - sb if op == "sub" else sa * sb
+            if self.ub_checks:
+                self.add_obligation(st, "ub:signed-overflow-" + op, "ub", z3.And(r >= -_M(n - 1), r < _M(n - 1)))
+            return SV(None, w=n, s=r)
+        ea, eb = self.iterm(a, n), self.iterm(b, n)
 
         def ubo(goal, what):
             if self.ub_checks:
@@ -212,8 +227,7 @@ def install(E):
         if op == "urem":
             return SV(ea % eb, w=n)
         if op in ("sdiv", "srem"):
-            sa = to_signed(a, n) if ca else sview(ea, n)
-            sb = to_signed(b, n) if cb else sview(eb, n)
+            sa, sb = sterm(a, n), sterm(b, n)
             if cb:
                 sbv = to_signed(b, n)
                 if sbv > 0:
@@ -224,8 +238,8 @@ def install(E):
                 q = z3.If(sb > 0, z3.If(sa >= 0, sa / sb, -((-sa) / sb)),
                           z3.If(sa >= 0, -(sa / (-sb)), (-sa) / (-sb)))
             if op == "sdiv":
-                return SV(ucanon(q, n), w=n)
-            return SV(ucanon(sa - q * sb, n), w=n)
+                return SV(None, w=n, s=q)
+            return SV(None, w=n, s=sa - q * sb)
         if op == "shl" and cb:
             if nuw:
                 return SV(ea * _M(b), w=n)
@@ -233,7 +247,7 @@ def install(E):
         if op == "lshr" and cb:
             return SV(ea / _M(b), w=n)
         if op == "ashr" and cb:
-            return SV(ucanon(sview(ea, n) / _M(b), n), w=n)
+            return SV(None, w=n, s=sterm(a, n) / _M(b))
         if op == "and":
             if cb or ca:
                 k, e = (b, ea) if cb else (a, eb)
@@ -242,6 +256,14 @@ def install(E):
                 inv = (~k) & (M - 1)
                 if inv & (inv + 1) == 0:        # clears low bits
                     return SV(e - e % (inv + 1), w=n)
+        if op == "xor" and ((cb and b == M - 1) or (ca and a == M - 1)):
+            return SV((M - 1) - (ea if cb else eb), w=n)
+        if op in ("and", "or", "xor", "shl", "lshr", "ashr"):
+            # bit-level fallback through bit-vectors
+            ba, bb = z3.Int2BV(ea, n), z3.Int2BV(eb, n)
+            r = {"and": lambda: ba & bb, "or": lambda: ba | bb, "xor": lambda: ba ^ bb, "shl": lambda: ba << bb,
+                 "lshr": lambda: z3.LShR(ba, bb), "ashr": lambda: ba >> bb}[op]()
+            return SV(z3.BV2Int(r), w=n)
         raise Inconclusive("integer op %s on symbolic Int-mode value" % op)
 
     # ------------------------------------------------------------------ icmp
@@ -256,7 +278,6 @@ def install(E):
         if a is UNDEF or b is UNDEF:
             return UNDEF
         n = ty.n if ty.k == "int" else 64
-        from .models import GuardedPtr
         if isinstance(a, GuardedPtr) or isinstance(b, GuardedPtr):
             g = a if isinstance(a, GuardedPtr) else b
             other = b if g is a else a
@@ -299,6 +320,22 @@ def install(E):
             if pred == "ne":
                 return SV(z3.Xor(ea, eb))
             raise Inconclusive("ordered compare on i1")
+        if self.imode == "int":
+            sa = a.s if isinstance(a, SV) else None
+            sb = b.s if isinstance(b, SV) else None
+            if pred[0] == "s" or (pred in ("eq", "ne") and (sa is not None or sb is not None) and
+                                  (sa is not None or not isinstance(a, SV)) and (sb is not None or not isinstance(b, SV))):
+                ea, eb = sterm(a, n), sterm(b, n)
+                if isinstance(ea, int):
+                    ea = IV(ea)
+                if isinstance(eb, int):
+                    eb = IV(eb)
+                if pred == "eq":
+                    return SV(ea == eb)
+                if pred == "ne":
+                    return SV(ea != eb)
+                p = pred[1:]
+                return SV(ea > eb if p == "gt" else ea >= eb if p == "ge" else ea < eb if p == "lt" else ea <= eb)
         ea, eb = self.iterm(a, n), self.iterm(b, n)
         if pred == "eq":
             return SV(ea == eb)
@@ -508,13 +545,15 @@ def install(E):
         return SV(e, w=n)
 
     def sym_sext(self, v, sn, n):
-        e = v.e
+        e = v.e if (v.s is None or sn == 1 or self.imode == "bv") else None
         if sn == 1:
             if self.imode == "bv":
                 return SV(z3.If(e, z3.BitVecVal(_M(n) - 1, n), z3.BitVecVal(0, n)))
             return SV(z3.If(e, IV(_M(n) - 1), IV(0)), w=n)
         if self.imode == "bv":
             return SV(z3.SignExt(n - sn, e))
+        if v.s is not None:
+            return SV(None, w=n, s=v.s)
         return SV(z3.If(e >= _M(sn - 1), e + (_M(n) - _M(sn)), e), w=n)
 
     def sym_itofp(self, v, sn, dty, signed):
@@ -534,7 +573,7 @@ def install(E):
         if self.imode == "bv":
             t = z3.BV2Int(e, is_signed=signed)
         else:
-            t = sview(e, sn) if signed else e
+            t = sterm(v, sn) if signed else e
         r = SV(z3.ToReal(t))
         if self.fmode == "rounded" and (dty.k == "float" or sn > 53):
             r = self.rnd(r, dty)
@@ -554,11 +593,11 @@ def install(E):
         self.add_obligation(st, "ub:fp-to-int-in-range", "ub", rng)
         st.assume(rng)
         if self.concretize_fptoi:
-            v = self.concrete_int(st, SV(t), "float-to-integer result")
+            v = self.concrete_int(st, SV(t, w=n), "float-to-integer result")
             return v & (_M(n) - 1)
         if self.imode == "bv":
             return SV(z3.Int2BV(t, n))
-        return SV(ucanon(t, n) if signed else t, w=n)
+        return SV(None, w=n, s=t) if signed else SV(t, w=n)
 
     E.op_ibin = op_ibin
     E.ibin = ibin
